@@ -404,15 +404,19 @@ func c19Run(e *c19Env, s *c19Scn, ctor string) verdict {
 
 	var pan interface{}
 
+	overwritten := -1
+
 	func() {
 		defer func() { pan = recover() }()
 
 		switch ctor {
 		case "g":
 			opts = build(all)
+			overwritten = c19Earlier(opts)
 			g, err = generic.NewDriver("h", opts...)
 		case "n":
 			opts = append(base, build(all)...)
+			overwritten = c19Earlier(opts)
 			n, err = network.NewDriver("h", opts...)
 		case "c":
 			opts = build(all)
@@ -466,6 +470,13 @@ func c19Run(e *c19Env, s *c19Scn, ctor string) verdict {
 			}
 		}
 	}()
+
+	if overwritten >= 0 {
+		fail(&v, "C19:caller-options-overwritten-by-an-earlier-constructor", "an earlier driver was built from the first options of the caller's slice; afterwards option %d of that slice (%v + %v) is no longer the caller's",
+			overwritten+1, s.Platform, s.User)
+
+		return v
+	}
 
 	if pan != nil {
 		fail(&v, "C19:"+ctor+":panic", "constructor panicked for platform options %v + user options %v: %v", s.Platform, s.User, pan)
@@ -775,4 +786,35 @@ func c19Edge(s *c19Scn, ctor string) verdict {
 	}
 
 	return v
+}
+
+// c19Earlier: an earlier driver was built from the first options of the same list (a caller that keeps its options in one
+// slice and hands sub-slices to the constructors): the caller's slice is the caller's - returns the index of an element that
+// was overwritten, or -1.
+func c19Earlier(opts []util.Option) (overwritten int) {
+	overwritten = -1
+
+	if len(opts) < 2 {
+		return
+	}
+
+	before := make([]uintptr, len(opts))
+	for i, o := range opts {
+		before[i] = fptr(o)
+	}
+
+	func() {
+		defer func() { _ = recover() }()
+
+		_, _ = netconf.NewDriver("h", opts[:len(opts)-1]...)
+		_, _ = generic.NewDriver("h", opts[:len(opts)-1]...)
+	}()
+
+	for i, o := range opts {
+		if fptr(o) != before[i] {
+			return i
+		}
+	}
+
+	return -1
 }
